@@ -451,20 +451,26 @@ impl Iterator for QueryState<'_> {
             // this should halt the search for solutions as it
             // does in the Scryer top-level. the exception term is
             // contained in self.machine_st.ball.
-            let h = machine.machine_st.heap.cell_len();
-
-            if let Err(err) = machine
+            // the cells of the ball refer to heap addresses relative to `ball.boundary` (the
+            // heap top when it was thrown); the heap may have grown since (a catch/3 that did
+            // not match copies the ball before re-throwing), so the ball must be re-aligned to
+            // the current heap top as '$get_ball'/1 does, not appended verbatim.
+            let h = match machine
                 .machine_st
-                .heap
-                .append(&machine.machine_st.ball.stub)
+                .ball
+                .copy_and_align_to(&mut machine.machine_st.heap)
             {
-                let resource_error_offset = err.resource_error_offset(&mut machine.machine_st.heap);
-                return Some(Err(Term::from_heapcell(
-                    machine,
-                    machine.machine_st.heap[resource_error_offset],
-                    &mut IndexMap::new(),
-                )));
-            }
+                Ok(h) => h,
+                Err(err) => {
+                    let resource_error_offset =
+                        err.resource_error_offset(&mut machine.machine_st.heap);
+                    return Some(Err(Term::from_heapcell(
+                        machine,
+                        machine.machine_st.heap[resource_error_offset],
+                        &mut IndexMap::new(),
+                    )));
+                }
+            };
 
             let exception_term =
                 Term::from_heapcell(machine, machine.machine_st.heap[h], &mut var_names.clone());
